@@ -16,6 +16,8 @@ pub struct Case {
     pub sig_tail: String,
 }
 
+const TIMING_ORACLES: &[&str] = &["pool_stopped_serving", "capacity_lost", "destructor_count", "drop_blocked_async_thread", "get_hang", "harness"];
+
 fn run_many(args: &Args, rep: &mut Report, engine: &str, n: u64, jobs: usize, f: impl Fn(u64) -> Case + Send + Sync + 'static) {
     let f = std::sync::Arc::new(f);
     let prop = args.prop.clone();
@@ -25,7 +27,15 @@ fn run_many(args: &Args, rep: &mut Report, engine: &str, n: u64, jobs: usize, f:
         let mut finds = Vec::new();
         let mut i = wk as u64;
         while i < n {
-            let c = f(i);
+            let mut c = f(i);
+            // verdicts that rest on a generous wall-clock watchdog are only believed if they repeat
+            if c.violations.first().map(|v| TIMING_ORACLES.contains(&v.oracle)).unwrap_or(false) {
+                let again = f(i);
+                if again.violations.first().map(|v| v.oracle) != c.violations.first().map(|v| v.oracle) {
+                    cov.inconclusive.push(format!("watchdog verdict {} of case {} did not repeat", c.violations[0].oracle, i));
+                    c = again;
+                }
+            }
             cov.evaluations += 1;
             cov.events += c.events;
             let _ = cov.distinct.insert(c.hash);
